@@ -47,6 +47,8 @@ def run(ctx: Ctx):
     )
     ctx.guarded(output_degree, ctx)
     ctx.guarded(rank_clipped, ctx)
+    res.rule("NO-RECAST", "no value computed from an SVD inside tensor_train / tensor_ring / partial_tucker is re-typed to the context or dtype of the data argument (tl.tensor(v, **tl.context(data)), v.astype(data.dtype), dtype=data.dtype): the property quantifies over integer tensors, whose floating-point cores / factors such a cast truncates", floor=3)
+    ctx.guarded(no_recast, ctx)
 
 
 def output_degree(ctx: Ctx):
@@ -227,3 +229,58 @@ def rank_clipped(ctx: Ctx):
             res.instance("RANK-CLIPPED", f"{f.name}: {src(c)[:60]}", sample={"line": c.lineno, "n_eigenvecs": src(ne) if ne is not None else None, "verdict": verdict, "ok": ok})
             if not ok:
                 ctx.finding("RANK-CLIPPED", f, c, f"{f.name}: the SVD at `{src(c)[:70]}` is not asked for min(rows, columns, requested rank) components ({verdict}): a core can then exceed the requested rank or the size of its unfolding, or the stored rank disagrees with the core's shape", construct=f"{f.name}: n_eigenvecs={src(ne) if ne is not None else None}")
+
+
+# ---------------------------------------------------------------------------------
+# NO-RECAST: SVD results are not cast back to the (possibly integer) type of the data
+# ---------------------------------------------------------------------------------
+def no_recast(ctx: Ctx):
+    from ..inline import with_inlined
+
+    repo, res = ctx.repo, ctx.res
+    for qname, seeds, _, _, label in SPECS:
+        f = with_inlined(repo, repo.func(qname))
+        data = next(iter(seeds))
+        # names holding (something derived from) the data argument, and names derived from an SVD result
+        data_names, svd_names = {data}, set()
+        changed = True
+        while changed:
+            changed = False
+            for st in own_scope_nodes(f.node):
+                if isinstance(st, (ast.comprehension, ast.For)):
+                    tgn = {n.id for n in ast.walk(st.target) if isinstance(n, ast.Name)}
+                    if any(isinstance(n, ast.Name) and n.id in svd_names for n in ast.walk(st.iter)) and not tgn <= svd_names:
+                        svd_names |= tgn  # for f in factors / [g(f) for f in factors]
+                        changed = True
+                    continue
+                if not isinstance(st, ast.Assign):
+                    continue
+                tg = {n.id for t in st.targets for n in ast.walk(t) if isinstance(n, ast.Name)}
+                reads = {n.id for n in ast.walk(st.value) if isinstance(n, ast.Name)}
+                from_svd = any(isinstance(c, ast.Call) and call_name(c) in ("svd_interface", "truncated_svd", "svd") for c in ast.walk(st.value)) or bool(reads & svd_names)
+                if from_svd and not tg <= svd_names:
+                    svd_names |= tg
+                    changed = True
+                if reads & data_names and not from_svd and all(not isinstance(c, ast.Call) or call_name(c) in ("reshape", "transpose", "unfold", "moveaxis", "copy", "tensor") for c in ast.walk(st.value)) and not tg <= data_names:
+                    data_names |= tg
+                    changed = True
+        n_casts = 0
+        for c in own_scope_nodes(f.node):
+            if not isinstance(c, ast.Call):
+                continue
+            nm = call_name(c)
+            target = None
+            if nm in ("tensor", "asarray", "array") and c.args:
+                target = c.args[0]
+                ctx_of = [k.value for k in c.keywords if k.arg is None] + [k.value for k in c.keywords if k.arg == "dtype"]
+            elif nm == "astype" and isinstance(c.func, ast.Attribute):
+                target = c.func.value
+                ctx_of = list(c.args) + [k.value for k in c.keywords]
+            else:
+                continue
+            n_casts += 1
+            tainted = any(isinstance(n, ast.Name) and n.id in svd_names for n in ast.walk(target))
+            to_data = any(isinstance(n, ast.Name) and n.id in data_names for e in ctx_of for n in ast.walk(e))
+            if tainted and to_data:
+                ctx.finding("NO-RECAST", f, c, f"{f.name} [{label}]: `{src(c)[:90]}` re-types a value computed from an SVD to the context / dtype of the data argument `{data}`: for an integer tensor the floating-point cores are truncated to integers and the decomposition no longer reproduces the input", construct=f"{f.name}: SVD result re-typed to the data's context")
+        res.instance("NO-RECAST", f"{f.qname} [{label}]", sample={"data_names": sorted(data_names)[:6], "svd_derived": sorted(svd_names)[:8], "casts_examined": n_casts})
